@@ -102,6 +102,15 @@ def genC03Cases (tier : String) (seed : Nat) : Array Case := Id.run do
     rng := rng'
     let c := parseCase s!"c03-r{i}" (if supported s then "pairs-supported" else "pairs-unsupported") s
     out := out.push { c with note := Json.mkObj [("kf", (kfParse s : Json)), ("chains", c.note)] }
+  -- the same pair text at the top level and inside a nested statement (witness of an open
+  -- finding), and the control in which the two pairs differ in one value
+  let leaf := fun (z : Sym) (t : String) => Part.ann { sym := z } true (.leaf t.toList)
+  let pair := fun (u v : String) => Part.pairs (.op .XOR (.grp (.mk [leaf Sym.I u])) (.grp (.mk [leaf Sym.I v])))
+  let mk := fun (v : String) => Stmt.mk [leaf Sym.A "a", pair "x" "y", .nested { sym := Sym.Cac } (.mk [leaf Sym.A "b", pair "x" v])]
+  let w := parseCase "c03-same-pair-text" "pairs-witness" (mk "y")
+  out := out.push { w with note := Json.mkObj [("kf", ("C03-same-pair-text-on-two-levels" : Json)), ("chains", w.note)] }
+  let ctl := parseCase "c03-different-pair-text" "pairs-witness" (mk "z")
+  out := out.push { ctl with note := Json.mkObj [("kf", ("" : Json)), ("chains", ctl.note)] }
   pure out
 
 /-- C03 at the level of the table: the expanded statements of a pair combination, exported
